@@ -92,6 +92,46 @@ CLAIMED.update({
                      'This check found the unmasked-transpose defect of the pinned tree (fixed in /repo 3072ea0).',
                 note='The un-stubbed end-to-end argmin query is beyond the solver; it is the conjunction of the two parts. Trusted: executor, models, z3.',
                 design='4/C11'),
+    'C12': dict(technique='symbolic execution of the crate MIR of SvgBuilder (default + setters + to_str) producing a symbolic string (literal, symbolic and guarded pieces) + SMT (z3) + expat on the skeleton',
+                text='The real SVG builder is executed with every module value, every RGBA byte and every character of the image string symbolic. Checked for all '
+                     'valuations: the document skeleton is well-formed (expat), no symbolic character can be < & or " (solver), conditional pieces are plain path data; '
+                     'square viewBox/background of side size+2*margin; per layer exactly one sub-path per module, present iff that module is dark, inside the cell '
+                     'anchored at (column+margin,row+margin); colour text is #rrggbb or #rrggbbaa iff alpha<255 as a function of the bytes; un-escaping the href '
+                     'returns the image string for every character value. Found the raw-href defect of the pinned tree (fixed in /repo 62c2cec).',
+                note='Cells (version, margin, layer list, image length) are enumerated; within a cell everything else is symbolic. Image characters are printable ASCII '
+                     '(control characters cannot be represented in XML 1.0). Trusted: executor, String/format! models (validated against the native output per cell), expat.',
+                design='4/C12'),
+    'C14': dict(technique='classification of every static in the crate MIR (frame condition) + symbolic execution of all setter histories and of build/render runs whose outputs must be functions of their arguments',
+                text='No static mut / interior-mutable static / thread_local exists in the MIR of the crate (400+ functions scanned), so every executor run is a function of its '
+                     'arguments; every sequence of <= 4 QRBuilder setter calls with symbolic arguments leaves each field at the last value set and build(&self) leaves the builder '
+                     'untouched and forwards exactly those values; to_str and SvgBuilder::to_str leave the QRCode untouched. If hidden state appears, its content is unmodellable '
+                     '(atomics/locks) and the verdict comes from a native history/8-thread replay.',
+                note='Thread schedules are NOT explored (neither engine supports concurrency): schedule independence is an implication of the absence of shared mutable state, not a verdict.',
+                design='4/C14'),
+    'C16': dict(technique='symbolic execution of the crate MIR of QRCode::to_str with every module symbolic + SMT (z3)',
+                text='For each of the 40 sizes, with every module value symbolic and arbitrary type bits, every character of the rendered text equals the faithful half-block '
+                     'rendering of the matrix with a one-module light border ((size+1)/2+1 lines of size+2 characters from the four allowed symbols); the QR code is not modified.',
+                note='Trusted: executor, String model (validated against the native output per size).', design='4/C16'),
+    'C17': dict(technique='symbolic execution of the crate MIR of src/wasm.rs (compiled on the host through the overlay) + SMT (z3); QRCode::new / to_str uninterpreted for the glue contracts',
+                text='Colour setters: for every ASCII string of length 0..10 no panic obligation is satisfiable and exactly 4 components are stored; qr_svg: for all 8 option states '
+                     '(size/position/image set or not) no panic and the builder is configured term-for-term with the option values, result is the rendering iff the build succeeded; '
+                     'qr: size*size value bits of the QR code QRCode::new returns with default options, [] on Err. Found two defects of the pinned tree (fixed in /repo 352d767, b5bc324).',
+                note='Non-ASCII colour strings are replayed natively only; the wasm32 target and the wasm-bindgen glue are outside. Trusted: executor, String/Vec/Option models, vec! literal model.',
+                design='4/C17'),
+    'C18': dict(technique='symbolic execution of the crate MIR of SvgBuilder::image; default placement in an exact fixed-point (dyadic) model of f64 decided in QF_BV, overrides as identities between FP terms (z3 QF_FP)',
+                text='Default placement, all 40 versions x 3 frame shapes with the margin a symbolic usize (<= 2^20): frame square, centred, module-aligned, side < 40% of the symbol, '
+                     'clear of the finder patterns, inside the symbol, independent of the margin and non-decreasing in the version; image centred in the frame and not larger. '
+                     'Overrides (symbolic f64 size/gap/position): image side is the requested size, frame side is size+2*gap or one module less, frame x/y = position - side/2, '
+                     'image centred in the frame - as exact identities between double-precision formulas.',
+                note='The fixed-point model is exact because every intermediate value is a multiple of 2^-8 below 2^40 (each division records an exactness side condition that the solver discharges). '
+                     'The decimal text of the numbers is not modelled; "centred" under overrides holds up to the rounding of the stated formulas.',
+                design='4/C18'),
+    'C19': dict(technique='symbolic execution of the crate MIR of SvgBuilder::to_file / ImageBuilder::to_file with environment stubs (arbitrary Ok/Err per I/O call) + SMT (z3)',
+                text='For every combination of outcomes of File::create, write_all and Pixmap::save_png: Ok(()) is returned iff every call succeeded, write_all receives exactly the '
+                     'rendering\'s bytes and only after a successful create, every error is returned as the IoError variant carrying the failing call\'s error, converts to ConvertError::Io, '
+                     'and no panic obligation exists on any path. The stub contract is validated by native runs (ok path, missing directory, path is a directory).',
+                note='Fault kinds are abstracted to "this call returned Err"; std::fs / tiny-skia contracts are assumed. Panics inside to_pixmap (third-party rasteriser) are outside.',
+                design='4/C19'),
     'C15': dict(technique=_X_TECH,
                 text='For a concrete version and symbolic stream/level/mask the type bits of every module equal the ISO region label as a constant, and '
                      'the number of data labels equals 8*total codewords + remainder bits.',
@@ -140,7 +180,7 @@ def main():
             'add_only': True,
         },
         'engines': [
-            {'name': 'mirsym+smt', 'path': 'engine/', 'serves_properties': sorted(CLAIMED),
+            {'name': 'mirsym+smt', 'path': 'engine/', 'serves_properties': sorted(p for p in CLAIMED if p not in ('C05', 'C09')),
              'kind_free_text': 'own symbolic executor for rustc MIR (-Zunpretty=mir of the current tree) -> hash-consed bit-vector terms -> SMT-LIB2, decided by z3 (5.1 and 4.8.12) and cvc5'},
             {'name': 'kani', 'path': 'harness/kani/', 'serves_properties': ['C02', 'C03', 'C04', 'C05', 'C06', 'C09'],
              'kind_free_text': 'Kani 0.68 / CBMC proof harnesses compiled inside a scratch overlay of the crate (scalar code only)'},
